@@ -85,6 +85,19 @@ def make(ctx, nd=None, kmin=1, n_max=None, min_n=1):
         pmin = rng.choice([-1, 1], spec.nd) * mag * spec.cell * spec.n
         spec = gen.MeshSpec(pmin, spec.cell, spec.n, spec.dims, spec.units, spec.flip)
         ctx.event("far_mesh")
+    elif spec.nd >= 2 and rng.random() < 0.15 and not spec.int_corners and not spec.dyadic:
+        # thin-film cells (50 nm x 50 nm x 0.2 nm): one axis 1e2..1e4 times finer than the
+        # others - "on the lattice" is decided axis by axis, in units of that axis' cell
+        ax = int(rng.integers(0, spec.nd))
+        fac = 10.0 ** rng.uniform(2, 4)
+        cell, pmin = spec.cell.copy(), spec.pmin.copy()
+        # (the other axes are made coarser, so that the finest cell stays well above the
+        # documented absolute default tolerance 1e-12 of is_aligned)
+        others = np.arange(spec.nd) != ax
+        cell[others] *= fac
+        pmin[others] *= fac
+        spec = gen.MeshSpec(pmin, cell, spec.n, spec.dims, spec.units, spec.flip)
+        ctx.event("thin_film_cells")
     for _ in range(20):
         boxes, regions = gen.rand_subregions(rng, spec, kmax=3)
         if len(boxes) >= kmin:
@@ -401,6 +414,19 @@ def persistence(ctx):
         spec = gen.MeshSpec(spec.pmin, spec.cell / 2, spec.n * 2, spec.dims, spec.units,
                             spec.flip, int_corners=True)
         boxes, regions = gen.rand_subregions(rng, spec, kmax=3)
+    if regions and spec.int_corners:
+        # a set that mixes integer-typed (whole-number) and float-typed corners, the
+        # integer-typed one listed first
+        for k0 in list(regions):
+            r0 = regions[k0]
+            a0, b0 = np.asarray(r0.pmin, float), np.asarray(r0.pmax, float)
+            if np.all(a0 == np.round(a0)) and np.all(b0 == np.round(b0)):
+                first = df.Region(p1=[int(x) for x in a0], p2=[int(x) for x in b0],
+                                  dims=r0.dims, units=r0.units)
+                regions = {k0: first, **{k: v for k, v in regions.items() if k != k0}}
+                boxes = {k0: boxes[k0], **{k: v for k, v in boxes.items() if k != k0}}
+                ctx.event("persist.integer_typed_subregion_first")
+                break
     sig(ctx, "persist", spec, boxes)
     mesh = spec.mesh(subregions=regions)
     tmp = tempfile.mkdtemp(prefix="dfmon_c14_")
